@@ -188,8 +188,12 @@ pub mod mirror {
     pub enum V<'a, T> { Own(T), Node(&'a T) }
     impl<'a, T> V<'a, T> { pub fn get(&self) -> &T { match self { V::Own(v) => v, V::Node(v) => v } } }
 
-    pub struct Ctx<'a, T> { pub root: &'a T, pub union_multi: std::cell::Cell<bool> }
-    impl<'a, T> Ctx<'a, T> { pub fn new(root: &'a T) -> Self { Ctx { root, union_multi: std::cell::Cell::new(false) } } }
+    pub struct Ctx<'a, T> { pub root: &'a T, pub union_multi: std::cell::Cell<bool>,
+                            /// false: RFC 9535 (per input node, the selectors in order). true: the order recorded as known finding KF-C02-union-order
+                            /// (per selector over the WHOLE input list) - used only to tell that finding from any other wrong order
+                            pub by_selector: bool }
+    impl<'a, T> Ctx<'a, T> { pub fn new(root: &'a T) -> Self { Ctx { root, union_multi: std::cell::Cell::new(false), by_selector: false } }
+                             pub fn known_union_order(root: &'a T) -> Self { Ctx { root, union_multi: std::cell::Cell::new(false), by_selector: true } } }
 
     impl<'a, T: Queryable> Ctx<'a, T> {
         pub fn select(&self, s: &Selector, n: &N<'a, T>) -> Vec<N<'a, T>> {
@@ -219,7 +223,9 @@ pub mod mirror {
         pub fn segment(&self, seg: &Segment, input: &[N<'a, T>]) -> Vec<N<'a, T>> {
             match seg {
                 Segment::Selector(s) => input.iter().flat_map(|n| self.select(s, n)).collect(),
-                Segment::Selectors(ss) => { if input.len() > 1 { self.union_multi.set(true); } input.iter().flat_map(|n| ss.iter().flat_map(|s| self.select(s, n)).collect::<Vec<_>>()).collect() }
+                Segment::Selectors(ss) => { if input.len() > 1 { self.union_multi.set(true); }
+                    if self.by_selector { ss.iter().flat_map(|s| input.iter().flat_map(|n| self.select(s, n)).collect::<Vec<_>>()).collect() }
+                    else { input.iter().flat_map(|n| ss.iter().flat_map(|s| self.select(s, n)).collect::<Vec<_>>()).collect() } }
                 Segment::Descendant(b) => {
                     let mut d = vec![];
                     for n in input { descendants(n, &mut d); }
